@@ -50,14 +50,14 @@ def gen(ctx):
             yield "cmdrt %s %s %s" % (v, hexlist(args), hexlist(seps))
 
 def gen_sweep4(ctx):
-    """every 4-byte first token (no white space, quote, backslash, NUL): which ones does the real parser accept?  Complete in the
-    thorough tier (16 shards, a few minutes); in the quick tier this stage runs only as the search for a failing input when a
-    proof obligation or the correspondence of C19 is broken, for a bounded time (a scattered tenth of the space)"""
-    secs = 3000 if ctx.get("tier") == "thorough" else 100
+    """4-byte first tokens (no white space, quote, backslash, NUL) through the real parser: which ones does it accept, and as what?
+    16 shards visit the 250^4 tokens in a scattered order for a bounded time (the complete sweep takes 20-50 minutes on this
+    machine - every invalid token costs a C++ exception - so the thorough tier covers what 8 minutes allow, about a fifth, and
+    each shard reports `done:<k>/<n>`); in the quick tier the stage runs only as the search for a failing input when a proof
+    obligation or the correspondence of C19 is broken (100 s per shard)"""
+    secs = 480 if ctx.get("tier") == "thorough" else 100
     for i in range(16):
         yield "verbsweep %d 16 %d" % (i, secs)
-    if ctx.get("tier") == "thorough":
-        ctx["scopes"].append("all 250^4 four-byte first tokens without white space / quote / backslash / NUL: the accepted ones are exactly the case variants of the four-letter verbs")
 
 PROP = {
     "id": "C19",
